@@ -59,6 +59,34 @@ def _start_coverage() -> None:
     atexit.register(_save)
 
 
+def _start_guardian(rec: Any, out: str) -> None:
+    """A daemon thread that ends the shard when it is orphaned (parent gone) or when no case has started or finished
+    for GUARD_S seconds - a non-yielding spin *between* cases (e.g. in a coroutine finalised by the garbage collector)
+    is outside the per-case watchdogs. What was observed so far is dumped; the stall itself is inconclusive."""
+    import threading
+
+    ppid = os.getppid()
+    common._ABORT["last_progress"] = time.monotonic()  # noqa: SLF001
+
+    def guard() -> None:
+        while True:
+            time.sleep(5)
+            if os.getppid() != ppid:
+                os._exit(3)
+            idle = time.monotonic() - common._ABORT.get("last_progress", 0.0)  # noqa: SLF001
+            if idle > GUARD_S:
+                try:
+                    rec.harness_problem(f"no case started or finished for {GUARD_S} s (spin outside a case?); shard aborted")
+                    Path(out).write_text(json.dumps(rec.dump()))
+                finally:
+                    os._exit(0)
+
+    threading.Thread(target=guard, daemon=True, name="vf-guardian").start()
+
+
+GUARD_S = 150
+
+
 def worker(args: argparse.Namespace) -> int:
     common.bootstrap()
     _start_coverage()
@@ -67,6 +95,7 @@ def worker(args: argparse.Namespace) -> int:
     rng = random.Random(f"{args.id}/{args.seed}")
     deadline = time.monotonic() + args.watchdog
     common._ABORT["out"] = args.out  # noqa: SLF001  (where an aborted shard dumps what it observed)
+    _start_guardian(rec, args.out)
     if hasattr(prop, "run_shard"):
         prop.run_shard(rec, rng, args.cases, args.shard_index, deadline)
     else:
